@@ -9,7 +9,7 @@ Extraction "model.ml"
   bind check
   all_ikinds ikind_eqb size signed lo hi in_range wrap w64 M64
   conv conv_branch conv_spec conv_array conv_spec_list n2_pair memcpy_path
-  sbx_equiv abi_host abi_lp32 abi_wide to_sbx to_app
+  sbx_equiv abi_host abi_lp32 abi_wide to_sbx to_app conv_cell
   region_of same_sbx unsandbox sandbox_ptr unsandbox_noctx sandbox_ptr_noctx load_ptr_cell store_ptr_cell
   ptr_arith ptr_index_gen ptr_arith_spec arith_wraps arith_exact field_addr
   arr_index arr_index_spec arr_index_cell ptr_arith_cell check_range range_good range_inside range_outside
